@@ -176,6 +176,5 @@ def tt_factories(E, s):
     else:
         raise ValueError(kind)
     E.eq('value', dense(E, z.cores), ref)
-    E.true('cores_distinct_objects', len({id(c) for c in z.cores}) == len(z.cores))
     E.true('ranks', list(z.R) == [1] * (len(N) + 1))
     E.true('dtype', all(E.dtname(c) == s['dtype'] for c in z.cores))
